@@ -658,6 +658,37 @@ theorem inv2_step (n : Nat) (s s' : Sys) (hreach : Reachable n s) (h : Inv2 n s)
       · rename_i hkj
         simp only [hkj, if_false] at hq
         exact a7 k Q hq
+  | fsmApply i =>
+    rcases fsmApply_cases n s i with heq | ⟨e, _, heq⟩
+    · rw [heq]; exact h
+    · rw [heq]
+      apply inv2_frame n s _ h
+      · intro j; simp only [setNode_nodes]; split
+        · rename_i hj; subst hj; rfl
+        · rfl
+      · rfl
+      · rfl
+      · intro ldr t p pt es lc hm; exact hm
+      · intro j; simp only [setNode_nodes]; split
+        · rename_i hj; subst hj; exact Nat.le_refl _
+        · exact Nat.le_refl _
+      · intro j; simp only [setNode_nodes]; split
+        · rename_i hj; subst hj; left; exact ⟨rfl, rfl⟩
+        · left; exact ⟨rfl, rfl⟩
+  | fsmRestore i =>
+    apply inv2_frame n s _ h
+    · intro j; simp only [apply, setNode_nodes]; split
+      · rename_i hj; subst hj; rfl
+      · rfl
+    · rfl
+    · rfl
+    · intro ldr t p pt es lc hm; exact hm
+    · intro j; simp only [apply, setNode_nodes]; split
+      · rename_i hj; subst hj; exact Nat.le_refl _
+      · exact Nat.le_refl _
+    · intro j; simp only [apply, setNode_nodes]; split
+      · rename_i hj; subst hj; left; exact ⟨rfl, rfl⟩
+      · left; exact ⟨rfl, rfl⟩
   | advanceCommit i k Q =>
     apply inv2_frame n s _ h
     · intro j; simp only [apply, setNode_nodes]; split
